@@ -82,6 +82,10 @@ def run(chk, orch):
     ]
     wls.append(({"seed": 26, "n_chr": 2, "genes_per_chr": 2, "reads_per_iso": 2, "paralogs": 1, "novel": 0},
                 {"ref_gz": True}, dict(common.GOLDEN_CELL, threads=2, sched={"policy": "placed", "seed": 2})))
+    # two experiments in one invocation (per-experiment locks and statistics; each BAM has unmapped records)
+    wls.append(({"seed": 27, "n_chr": 2, "genes_per_chr": 1, "reads_per_iso": 2, "paralogs": 0, "novel": 0, "n_exp": 2,
+                 "exp_mode": "split", "unmapped": 3, "supplementary": 0, "lowmapq": 0, "intergenic": 0, "mono": 0},
+                {}, dict(common.GOLDEN_CELL, threads=1, bufsize=8192)))
     if not quick:
         wls += [
             ({"seed": 23, "n_chr": 2, "genes_per_chr": 2, "reads_per_iso": 3, "paralogs": 1, "n_exp": 2},
@@ -129,10 +133,16 @@ def run(chk, orch):
                     by.setdefault((st[x[0]], x[2]), []).append(x)
                 cand = [v[chk.rng.randrange(len(v))] if len(v) > 2 else v[0] for v in by.values()]
             for seq, slot, label, occ in cand:
-                for phase in ("before", "after"):
+                for phase in ("before", "after", "after+threads"):
                     a = common.job_args(spec, opts, cell)
-                    a["fault"] = {"kind": "kill", "index": seq, "phase": phase}
                     rs = {}
+                    if phase == "after+threads":
+                        # --resume with another --threads value (documented as allowed): quick tier, late stages of the
+                        # first (single-threaded) workload only
+                        if not (quick and wi == 0 and st[seq] in ("construct", "merge", "cleanup")):
+                            continue
+                        rs = {"threads": 2, "sched": {"policy": "spread", "seed": seq}}
+                    a["fault"] = {"kind": "kill", "index": seq, "phase": "after" if phase == "after+threads" else phase}
                     if not quick and chk.rng.random() < 0.3:
                         rs["threads"] = chk.rng.choice([1, 2, 4])
                         rs["sched"] = {"policy": chk.rng.choice(common.POLICIES), "seed": chk.rng.randrange(1000)}
